@@ -705,11 +705,28 @@ def signature(call, b, x, flags) -> str:
 
 # ---- generation of histories ---------------------------------------------------------------------------------
 
+def findings_corpus():
+    """the replay files of every listed finding (known or fixed) are corpus cases that run first"""
+    import glob
+    import os
+    out = []
+    for path in sorted(glob.glob(os.path.join(core.VERIF, "findings", "C15-*.json"))):
+        with open(path) as f:
+            rp = json.load(f)
+        r = rp.get("replay") or {}
+        if "call_json" in r:
+            out.append(([tuple(x) for x in r.get("rows_before_execute") or []], call_from_json(r["call_json"]), os.path.basename(path)))
+    return out
+
+
 def corpus():
-    """shapes that matter, run first: the three findings, the documented examples, swap, NULL predicate, omitted"""
+    """shapes that matter, run first: the former findings, the documented examples, swap, NULL predicate, omitted"""
     T = lambda c: ("col", c, "T")
     Fc = lambda c: ("col", c, "F")
     return [
+        [{"kind": "delete", "where": {"kind": "sql", "e": ("if", Fc("f"), ("isnull", Fc("a")), ("bin", "Gt", Fc("b"), ("neg", ("lit", 3))))}}],
+        [{"kind": "update", "set": [["str", "a", ("if", ("isnull", Fc("a")), ("lit", 0), Fc("a"))]],
+          "where": {"kind": "sql", "e": ("bin", "And", ("bin", "NullSafeEq", ("neg", Fc("a")), ("neg", ("lit", 3))), Fc("f"))}}],
         [{"kind": "delete", "where": {"kind": "sql", "e": ("isnull", Fc("a"))}}],
         [{"kind": "update", "set": [["str", "a", Fc("b")]], "where": {"kind": "none"}}],
         [{"kind": "update", "set": [["str", "a", ("coalesce", T("a"), ("lit", 0))]], "where": {"kind": "none"}}],
@@ -734,6 +751,10 @@ def corpus():
 def make_histories(ctx):
     r = random.Random(ctx.seed)
     hs = []
+    for rows, call, fname in findings_corpus():
+        TABLES.setdefault("finding:" + fname, rows)
+        hs.append(("finding:" + fname, [call], [0]))
+        hs.append(("t1", [call], [0]))
     for calls in corpus():
         for tn in ("t1", "nulls"):
             hs.append((tn, calls, [0]))
@@ -768,7 +789,7 @@ def make_histories(ctx):
                     hs.append((tn, [call], [0]))
                     n_exh += 1
     # random histories of up to 4 statements
-    n_rand = 280 if ctx.tier == "quick" else 4000
+    n_rand = 220 if ctx.tier == "quick" else 4000
     for _ in range(n_rand):
         n = r.choice([1, 1, 2, 2, 3, 4])
         calls = [gen_call(r) for _ in range(n)]
@@ -854,7 +875,7 @@ def shrink(impl, rows, call, budget=60):
 
 PINNED = """(* facts of the pinned source, used only so that the search can still run when the translator failed *)
 From SF Require Import Base.Val Base.Expr C15.Dml.
-Definition gen_cfg : cfg := mkCfg true And true true false true true false true true true true true true 0 1.
+Definition gen_cfg : cfg := mkCfg true And true true true true false true true true true true true true 0 1.
 """
 
 
@@ -890,6 +911,8 @@ def run(ctx: core.Ctx):
 
     seen = set()
     n_hist = 0
+    # only entries with status "known" are reported as KNOWN-FINDING; "fixed" ones suppress nothing
+    listed_known = {k["signature"] for k in ctx.known if k.get("status", "known") == "known"}
     for tn, calls, order in hs:
         key = (tn, json.dumps(calls, sort_keys=True, default=str), tuple(order))
         if key in seen:
@@ -956,7 +979,7 @@ def run(ctx: core.Ctx):
                     SIG_ALIAS: "an assigned value built by a function keeps its automatic alias -> syntax error"}.get(
                 sig, "update/delete does not do what the property says")
             desc["coq_case"] = it
-            if sig not in (SIG_SQL, SIG_UNQ, SIG_ALIAS):
+            if sig not in listed_known:
                 unexpected.append((sig, what, desc, m, o))
             else:
                 ctx.deviation(sig, what, desc)
@@ -1024,8 +1047,10 @@ def run(ctx: core.Ctx):
         "their row-id order) -- validated by T3 only",
         "normalize(): table['c'] carries the table object's branch id, which sqlframe's normalize() maps to the CTE name "
         "(sqlframe/base/normalize.py is not translated; covered by T2/T3)",
-        "SQL-string predicates: the model covers strings sqlglot's to_column() cannot read as a column production (top-level "
-        "operator, NOT, IS NULL); function-call / fully parenthesised strings are accepted by accident and are not generated",
+        "SQL-string predicates (repaired source): the string is parsed by sqlglot.parse_one; the model takes the parsed "
+        "expression from the harness (which rendered the string), and T2 compares it with the exported tree up to "
+        "stmt_equiv (qualifier erasure + folding of negated integer literals, sound by stmt_equiv_sound); for the source "
+        "before fix 4248493 the model covers strings to_column() cannot read as a column production",
         "well-typed statements only (int/str/bool columns get values of their type); no overflow",
         "the property's meaning (Dml.spec_rows) is additionally checked against an independent SELECT on DuckDB on every observation",
     ]
